@@ -16,14 +16,14 @@ vars == <<l, x, cfg, st, viol>>
 V(p, r, i) == [prop |-> p, rule |-> r, line |-> l, exec |-> x, info |-> ToString(i)]
 Chk(c, p, r, i) == IF c THEN {} ELSE {V(p, r, i)}
 Result(s, v) == [s |-> s, v |-> v]
-FreshState == [bound |-> <<-1, -1, -1>>, leafLive |-> {}, prop |-> 7]
+FreshState == [bound |-> <<-1, -1, -1>>, leafLive |-> {}, prop |-> 7, single |-> FALSE]
 Pocca == st.prop % 2 = 1
 Pocma == (st.prop \div 2) % 2 = 1
 Pocs == (st.prop \div 4) % 2 = 1
 
 \* the binding each operation must produce
 Expected(b, e) ==
-  CASE e.op = "init" -> <<0, 1, -1>>
+  CASE e.op = "init" -> IF st.single THEN <<0, 0, -1>> ELSE <<0, 1, -1>>
     [] e.op = "new" -> [b EXCEPT ![e.a + 1] = e.c]
     [] e.op \in {"cpy", "mov"} -> [b EXCEPT ![e.c + 1] = b[e.a + 1]]
     [] e.op = "cas" -> IF Pocca THEN [b EXCEPT ![e.c + 1] = b[e.a + 1]] ELSE b
@@ -62,7 +62,7 @@ OnCend(e) ==
 OnPoolrun(e) == Result(st, Chk(e.r = "ok", "C10", "PoolWithNodeSizeConstantServes", <<e.cont, e.tsize, e.talign, e.constant, e.r>>))
 
 Apply(e) ==
-  CASE e.e = "cbox" -> Result([st EXCEPT !.prop = e.prop], Chk(e.ok, "X", "UnknownContainer", <<e.name>>))
+  CASE e.e = "cbox" -> Result([st EXCEPT !.prop = e.prop, !.single = e.single], Chk(e.ok, "X", "UnknownContainer", <<e.name>>))
     [] e.e = "cop" -> OnCop(e)
     [] e.e = "leaf" -> OnLeaf(e)
     [] e.e = "ceq" -> OnCeq(e)
